@@ -47,7 +47,7 @@ def run_stream(ctx, n):
     lines, expect, meta = [], [], []
     for i in range(n):
         nps = np.random.default_rng(rng.randrange(2**31))
-        kind = ["dipole", "sphere", "segment", "cuboidmask"][i % 4]
+        kind = ["dipole", "sphere", "segment", "cuboidmask", "cuboid"][i % 5]
         sc = 10.0 ** nps.uniform(-3, 3)
         f = rng.choice("BHJM")
         if kind == "dipole":
@@ -74,6 +74,15 @@ def run_stream(ctx, n):
             lines.append(f"kern segment {bits(cur)} {enc(p1)} {enc(p2)} {enc(po)}")
             scale = abs(cur) / (4 * np.pi * max(np.linalg.norm(off), 1e-300))
             f = "H"
+        elif kind == "cuboid":
+            dim, pol = nps.uniform(0.5, 2, 3) * sc, nps.uniform(-1, 1, 3) * rng.choice([1, 1, 1, 0])
+            if rng.random() < 0.2:
+                pol[rng.randrange(3)] = 0.0
+            x = stratified_point(rng, nps, dim / 2)
+            r = BHJM_magnet_cuboid(f, x[None], dim[None], pol[None])[0]
+            lines.append(f"kern cuboid {f} {enc(dim)} {enc(pol)} {enc(x)}")
+            scale = np.linalg.norm(pol) * (1 if f in "BJ" else 1 / mu_0) + 1e-300
+            # arctan2/log cancellation close to faces: compare relative to the polarization scale
         else:
             dim, pol = nps.uniform(0.5, 2, 3) * sc, nps.uniform(-1, 1, 3) * rng.choice([1, 1, 1, 0])
             x = stratified_point(rng, nps, dim / 2)
